@@ -11,7 +11,7 @@ for c in $commits; do
   subj=$(git log -1 --format=%s $c)
   # skip commits whose patch is already in main (same patch-id)
   pid=$(git show $c | git patch-id --stable | cut -d' ' -f1)
-  if git log --format=%H main | head -100 | while read h; do git show $h | git patch-id --stable | cut -d' ' -f1; done | grep -q "^$pid$"; then
+  if git log --format=%s main | head -200 | grep -qxF "$subj" || git log --format=%H main | head -100 | while read h; do git show $h | git patch-id --stable | cut -d' ' -f1; done | grep -q "^$pid$"; then
     echo "SKIP (already in main): $subj"; continue
   fi
   if git cherry-pick -x $c >/dev/null 2>&1; then
